@@ -419,8 +419,26 @@ class Stmts:
             return VOpaque(name)
         raise Unsupported(f"havoc of {cur!r}")
 
+    def havoc_field(self, obj: V, field: str, fr: Frame) -> None:
+        """Havoc one field of a concrete object (frame: every other field keeps its value)."""
+        if not isinstance(obj, ConcObj):
+            raise Unsupported(f"havoc of field {field} of {obj!r}")
+        cur = obj.fields.get(field)
+        fa = obj.cls.field_annotation(field)
+        hint = self.path.fresh_name(f"{obj.cls.name}.{field}'")
+        if fa is not None and fa[1] is not None:
+            obj.fields[field] = self.mk_sym(fa[1], fa[0].module, hint)
+        elif cur is not None and not isinstance(cur, VNoneT):
+            obj.fields[field] = self.fresh_like(cur, hint, ())
+        else:
+            raise Unsupported(f"cannot havoc field {field}: no declared type")
+
     def do_havoc(self, names: List[str], fr: Frame) -> None:
         for n in names:
+            if "." in n:
+                base, _, field = n.rpartition(".")
+                self.havoc_field(self.eval_spec(base, fr), field, fr)
+                continue
             cur = fr.lookup(n)
             if cur is None and n not in fr.var_types:
                 continue  # first bound inside the loop: dead at loop head
@@ -539,7 +557,7 @@ class Stmts:
         for nm, ex in spec.invariants:
             self.oblige_spec(nm, ex, "loop-inv-entry", st, fr)
         rebound, mutated = self.assigned_names(st.body)
-        names = spec.modifies if spec.modifies is not None else [n for n in rebound + mutated]
+        names = (spec.modifies if spec.modifies is not None else [n for n in rebound + mutated]) + spec.also_modifies
         arbitrary = (not spec.exit_only) and self.path.choose()
         self.do_havoc([n for n in names if n != idx], fr)
         i = z3.Int(self.path.fresh_name(idx))
@@ -670,7 +688,7 @@ class Stmts:
         for nm, ex in spec.invariants:
             self.oblige_spec(nm, ex, "loop-inv-entry", st, fr)
         rebound, mutated = self.assigned_names(st.body)
-        names = spec.modifies if spec.modifies is not None else rebound + mutated
+        names = (spec.modifies if spec.modifies is not None else rebound + mutated) + spec.also_modifies
         arbitrary = (not spec.exit_only) and self.path.choose()
         self.do_havoc(names, fr)
         for nm, ex in spec.invariants:
